@@ -306,6 +306,28 @@ func zzPinRand() {
 // zzLockStats cannot be observed natively; obligations on it are structural (flag constants).
 func zzLockStats() (int, bool, bool) { return 0, true, true }
 
+// zzOutEdges: the "edges" array of the sequence reply last written to stdout (nil when the last JSON
+// value is not a sequence reply). Natively the bytes on stdout are decoded; symbolically the value
+// handed to writeJSON is read.
+func zzOutEdges() []sequenceEdgeOutput {
+	v := zzLastJSON()
+	if zzIsNative() {
+		raw, err := json.Marshal(v)
+		if err != nil {
+			return nil
+		}
+		var so sequenceOutput
+		if json.Unmarshal(raw, &so) != nil || so.Kind != "sequence" {
+			return nil
+		}
+		return so.Edges
+	}
+	if so, ok := v.(sequenceOutput); ok {
+		return so.Edges
+	}
+	return nil
+}
+
 // zzOutStr: string field of the last JSON object written to stdout ("" when absent).
 func zzOutStr(field string) string {
 	if m, ok := zzLastJSON().(map[string]interface{}); ok {
